@@ -300,9 +300,9 @@ def decoder_short(ctx, dec, msg, cell):
     if msg.sec2 is not None:
         content[2] = 4
     for sec, need in content.items():
-        for cut in (1, 2, 3):
+        for cut in (1, 2, 3, need - 1, need):     # ... down to a declared length of 1 and of 0
             declared = need - cut
-            if declared < 0:
+            if declared < 0 or cut <= 0:
                 continue
             bb = bytearray(b)
             st = fr.sections[sec][0]
